@@ -16,8 +16,8 @@ CHECKS = {
     note='assumes the projection (cell_map, values, dep_graph edges, _values_changed) captures the state behaviour depends on; workbooks are the listed 6-8 node shapes, values from an 5-8 value pool',
     ref='§3 C01'),
  'C03': dict(
-    technique='Persist.tla (text file, pickle file, pickle-reuse rule with named deviation DEV_StalePickle, extension search order) checked by TLC; every history of the code-rule model executed on real files; attribution of known findings by the deviation model; lock-step original/loaded histories in same process, fresh thread and fresh process',
-    text='TLC checks LoadedEquiv and SaveIdempotent for the repaired protocol and exports all histories (depth <= 5) of to_file/from_file/set_value/extra_data edits for both rules; each is executed on real yml/json/pkl files: a model loaded from a current file must equal the live model (values of all saved cells, extra_data), an unchanged re-save must be byte-identical; a discrepancy is D9 only if the deviation model predicts exactly the observed content.  Content fidelity over a 55-value adversarial pool x 3 formats (D10 by predictor), random post-load histories in lock-step on random workbooks (cycles on/off; same process, new thread, new process), save(load(f)) content and metadata survival.',
+    technique='Persist.tla (text file, pickle file, pickle-reuse rule with named deviation DEV_StalePickle, extension search order) checked by TLC; every history of the code-rule model executed on real files; attribution of known findings by the deviation model; lock-step original/loaded histories in same process, fresh thread and fresh process; Reload.tla (save/load at any point of an Engine history) toured on real models',
+    text='TLC checks LoadedEquiv and SaveIdempotent for the repaired protocol and exports all histories (depth <= 5) of to_file/from_file/set_value/extra_data edits for both rules; each is executed on real yml/json/pkl files: a model loaded from a current file must equal the live model (values of all saved cells, extra_data), an unchanged re-save must be byte-identical; a discrepancy is D9 only if the deviation model predicts exactly the observed content.  Content fidelity over a 55-value adversarial pool x 3 formats (D10 by predictor), random post-load histories in lock-step on random workbooks (cycles on/off; same process, new thread, new process), save(load(f)) content, metadata and source-hash survival; Reload.tla composes to_file/from_file with the Engine model (same cell map, complete edges, coherent cache after the eager range evaluation) and every transition is executed on real models.',
     note='content abstracted to input constants + metadata in the model; yaml/json byte encoding exercised by the pool, not modelled; quick tier samples 1500 protocol histories per text format',
     ref='§3 C03'),
  'C04': dict(
